@@ -103,7 +103,7 @@ META["C11"] = dict(
     design_ref="DESIGN.md section 5, C11",
     technique="Coq proofs on the exact layer (remainder carry over rational rates: telescoping, per-tick floor/floor+1, peak bound; weight index = window number mod len proved against the code's loop), real-analysis proofs that the density is unimodal and that the left Riemann sum the calculator forms is within one slot of peak density of the window's probability mass (Coquelicot RInt), Flocq proof that the binary64 remainder carry loses only the rounding of one addition per tick; bit-exact differential of NewCalculator.For / CalculateGaussianRate.Rate against the extracted binary64 model with exp/erfc values as oracles; per-window property predicate on the implementation's outputs",
     text="Theorems C11_carry, C11_step, C11_peak, C11_unimodal, C11_weight_index: for any non-negative exact rates the carried remainder makes D*sum(out) + rem_n = sum(rates) + rem_0 with 0 <= rem < D (nothing lost, never negative), each tick emits floor or floor+1 of its rate, no tick exceeds the largest-rate tick by more than one, the real density is largest nearest its mean, and the weight used is that of (window number) mod (number of weights). "
-         "C11_discretisation, C11_volume: for every mean, deviation, window start, slot width and slot count the sum of width*density differs from the window's probability mass by at most width*peak density, so with real arithmetic the emitted total lies in (V - V*h*peak/mass - 1, V + V*h*peak/mass]. C11_for_is_fstep, C11_float_carry, C11_volume_f64: the binary64 loop keeps its remainder in [0,1), emits no negative value and loses only sum(2^-53 (rate+1) + 2^-1075) to rounding; composed, the emitted total is within 1 + that + eps*(V+disc) + disc of the volume when the float rates are within a relative eps of the real ones. "
+         "C11_discretisation, C11_volume: for every mean, deviation, window start, slot width and slot count the sum of width*density differs from the window's probability mass by at most width*peak density, so with real arithmetic the emitted total lies in (V - V*h*peak/mass - 1, V + V*h*peak/mass]. C11_for_is_fstep, C11_float_step, C11_peak_f64, C11_float_carry, C11_volume_f64: every binary64 step emits floor(rate) or floor(rate)+1 (never rounded up to floor+2), so no tick exceeds the float-rate peak tick by more than one; the binary64 loop keeps its remainder in [0,1), emits no negative value and loses only sum(2^-53 (rate+1) + 2^-1075) to rounding; composed, the emitted total is within 1 + that + eps*(V+disc) + disc of the volume when the float rates are within a relative eps of the real ones. "
          "Hypothesis, not proved: eps, i.e. the accuracy of Go's math.Exp / math.Erfc; the harness measures the end-to-end volume per generated parameter set (gauss_ok).",
     note="Trusted: Coq kernel + standard real-number axioms (sig_forall_dec, sig_not_dec, classic, functional_extensionality_dep: Coq reals, Flocq, Coquelicot); math.Exp/math.Erfc as oracles; extraction + driver; harness.",
 )
